@@ -1,0 +1,1 @@
+//! Hooks for property C06 (empty until needed).
